@@ -227,9 +227,59 @@ func TestCheck(t *testing.T) {
 	if !ok {
 		return
 	}
+	// a first run with --baseline whose later file fails: all mode leaves the database as it was
+	for _, files := range []int{1, 2} {
+		for failF := 0; failF < files; failF++ {
+			c := BCase{Mode: "all", Files: files, FailF: failF}
+			if !ev.Each(col, "baseline-then-failure", c, func(c BCase) error {
+				col.Class("migrate-apply/mode=all/baseline/failing=true")
+				col.NonTrivial(fmt.Sprintf("baseline|%s|%d|%d", c.Mode, c.Files, c.FailF))
+				return checkBaseline(c)
+			}, knownB) {
+				return
+			}
+		}
+	}
 	ev.Rapid(t, col, "random", col.N(40, 4000), genCase, check, known)
 }
 
+var knownB = ev.Matcher[BCase]{
+	// only the baseline revision row stays behind
+	"baseline-row-survives-failed-all-mode-run": func(c BCase, err error) bool {
+		m := err.Error()
+		if c.Mode != "all" || !strings.Contains(m, "tx-mode all with --baseline") || !strings.Contains(m, "not as before the command") {
+			return false
+		}
+		field := func(line, key string) string {
+			i := strings.Index(line, key+"=")
+			if i < 0 {
+				return "?"
+			}
+			rest := line[i+len(key)+1:]
+			if j := strings.Index(rest, "]"); j >= 0 && strings.HasPrefix(rest, "[") {
+				return rest[:j+1]
+			}
+			return strings.Fields(rest)[0]
+		}
+		var before, after string
+		for _, l := range strings.Split(m, "\n") {
+			l = strings.TrimSpace(l)
+			if strings.HasPrefix(l, "before:") {
+				before = l
+			}
+			if strings.HasPrefix(l, "after:") {
+				after = l
+			}
+		}
+		return field(before, "journal") == field(after, "journal") && field(before, "schema") == field(after, "schema") &&
+			field(before, "revisions") == "[]" && field(after, "revisions") == "[1:0/0:err=false]"
+	},
+}
+
 func TestReplay(t *testing.T) {
+	if strings.HasPrefix(ev.ReplaySub(), "baseline") {
+		ev.ReplayFile(t, "C13", func(_ string, c BCase) error { return checkBaseline(c) })
+		return
+	}
 	ev.ReplayFile(t, "C13", func(_ string, c Case) error { _, err := checkCase(c); return err })
 }
